@@ -451,13 +451,18 @@ Proof.
     destruct (Hu RsPerTryTimeout s3) as [H3 H4]. destruct (on_up_reset RsPerTryTimeout s3) as [s4 o4]. cbn [fst snd] in *.
     subst o4. rewrite app_nil_r. split; auto. rewrite H3, H1. reflexivity.
   - destruct (global_armed s); [|cbn; split; auto; tauto].
+    assert (Ht : forall s2, cleaned (fst (if has_upreq s2 then (X ;; on_up_reset RsGlobalTimeout) s2 else (s2, []))) = cleaned s2 /\
+                            forall o, In o (snd (if has_upreq s2 then (X ;; on_up_reset RsGlobalTimeout) s2 else (s2, []))) -> exists k, o = OUpReset k).
+    { intros s2. destruct (has_upreq s2); [|cbn; split; auto; tauto].
+      unfold aseq. destruct (Hx s2) as [H1 H2]. destruct (X s2) as [s3 o3]. cbn [fst snd] in *.
+      destruct (Hu RsGlobalTimeout s3) as [H3 H4]. destruct (on_up_reset RsGlobalTimeout s3) as [s4 o4]. cbn [fst snd] in *.
+      subst o4. rewrite app_nil_r. split; auto. rewrite H3, H1. reflexivity. }
+    cbn zeta.
     destruct (cleaned (s <| global_armed := false |> <| reuse := false |>)) eqn:E1; [cbn; split; auto; tauto|].
-    destruct (received (s <| global_armed := false |> <| reuse := false |>)); [cbn; split; auto; tauto|].
-    destruct (has_upreq (s <| global_armed := false |> <| reuse := false |> <| received := true |>)); [|cbn; split; auto; tauto].
-    unfold aseq. set (s2 := s <| global_armed := false |> <| reuse := false |> <| received := true |>).
-    destruct (Hx s2) as [H1 H2]. destruct (X s2) as [s3 o3]. cbn [fst snd] in *.
-    destruct (Hu RsGlobalTimeout s3) as [H3 H4]. destruct (on_up_reset RsGlobalTimeout s3) as [s4 o4]. cbn [fst snd] in *.
-    subst o4. rewrite app_nil_r. split; auto. rewrite H3, H1. reflexivity.
+    destruct (received (s <| global_armed := false |> <| reuse := false |>)).
+    + destruct (global_lost_cas_stops src || resp_started (s <| global_armed := false |> <| reuse := false |>)); [cbn; split; auto; tauto|].
+      destruct (Ht (s <| global_armed := false |> <| reuse := false |>)) as [H1 H2]. split; auto.
+    + destruct (Ht (s <| global_armed := false |> <| reuse := false |> <| received := true |>)) as [H1 H2]. split; auto.
   - unfold on_down_reset, ite, ret, upd. destruct (down_reset s); cbn; split; auto; tauto.
   - cbn zeta. destruct (rsp (s <| reuse := false |>)); [cbn; split; auto; tauto|].
     destruct (cleaned (s <| reuse := false |>)) eqn:E; [cbn; split; auto; tauto|].
